@@ -55,4 +55,13 @@ def normalize (src : Bytes) : Bytes :=
     | _ => d
   render (resolve [] (splitSlash body))
 
+/-! ### what the file handler may open (C07, file-system side) -/
+
+/-- the path handed to the file system below the root: empty (the root itself) or a contained path -/
+def servable (p : Bytes) : Bool := p.isEmpty || contained p
+
+/-- a served location, given as the list of names from a base directory above the root, lies in the
+root directory `root` (or is the root) -/
+def insideRoot (root : Bytes) (loc : List Bytes) : Bool := loc.head? == some root
+
 end Hertz.Spec
